@@ -178,6 +178,47 @@ func runC17(c *core.Ctx, ck *Check) {
 				}
 			}
 		}
+		// long homogeneous lists (size thresholds: fast paths for "32 or more = items" and the like): 16..100 constraints
+		// with ONE operator throughout (or mixed), one entry damaged (a version the scheme rejects, a missing comparator, a
+		// missing version), the probe being a listed version verbatim, a version equal to a listed one, or an unlisted one
+		for b := 0; b < c.Scale(24, 200); b++ {
+			cnt := []int{16, 31, 32, 33, 40, 64, 65, 100}[r.IntN(8)]
+			op := versOps[r.IntN(len(versOps))]
+			if r.IntN(2) == 0 {
+				op = "="
+			}
+			parts := make([]string, cnt)
+			for x := range parts {
+				o := op
+				if b%5 == 4 {
+					o = versOps[r.IntN(len(versOps))]
+				}
+				parts[x] = o + strs[r.IntN(len(strs))]
+			}
+			bad := r.IntN(cnt)
+			good := append([]string{}, parts...)
+			switch r.IntN(4) {
+			case 0:
+				parts[bad] = op + "not a version !!"
+			case 1:
+				parts[bad] = strs[r.IntN(len(strs))] // no comparator
+			case 2:
+				parts[bad] = op // no version
+			default:
+				parts[bad] = op + []string{"1.0~rc1@", "1..2..", "v", "1:2:3:4", "^", "1.0 || 2.0", "\x01"}[r.IntN(7)]
+			}
+			var probes []string
+			for x := 0; x < 3; x++ {
+				_, v := splitVersCons(good[r.IntN(cnt)])
+				probes = append(probes, v)
+			}
+			_, first := splitVersCons(good[0])
+			_, last := splitVersCons(good[cnt-1])
+			probes = append(probes, first, last, strs[r.IntN(len(strs))])
+			for _, pr := range probes {
+				check("vers:"+j.scheme+"/"+strings.Join(parts, "|"), pr, "long-list-one-bad-entry")
+			}
+		}
 		for b := 0; b < nBase; b++ {
 			k := 1 + r.IntN(4)
 			parts := make([]string, k)
